@@ -125,6 +125,14 @@ def to_yaml(template, path: str, **kwargs) -> None:
     from pyrates.frontend.fileio.yaml import dump_to_yaml
     dump_to_yaml(template, path=path, **kwargs)
 
+    # templates that were loaded from an earlier version of this file must not be served from the cache any longer
+    import os
+    written = os.path.abspath(os.path.splitext(str(path))[0])
+    for key in list(template_cache):
+        file_part = key.rsplit('/', 1)[0] if '/' in key else key.rsplit('.', 1)[0].replace('.', '/')
+        if os.path.abspath(file_part) == written:
+            template_cache.pop(key)
+
 
 def clear_cache():
     """Shorthand to clear template cache for whatever reason."""
